@@ -47,8 +47,10 @@ class CollectionAdapter(PoolAdapter):
         try:
             if action == "NewColl":
                 if self.spelling % 2:
-                    from physt.binnings import NumpyBinning
-                    o["c"] = self.HC(binning=NumpyBinning(self._edges(self.L)))
+                    # a binning object of the class the members get from h1(values, edges); binnings of different classes
+                    # over the same bins do not compare equal in physt, so a NumpyBinning here would refuse every member
+                    from physt.binnings import StaticBinning
+                    o["c"] = self.HC(binning=StaticBinning(np.array(self.pe.edges(self.L))))
                 else:
                     o["c"] = self.HC(binning=self._edges(self.L))
             elif action == "FromMembers":
